@@ -305,6 +305,8 @@ class Ctx:
                     print('KNOWN-FINDING: property=%s %s' % (self.prop, kf.get('what', what)))
                     self.known_printed.add(key)
                 return False
+        if any(v['key'] == key for v in self.violations):
+            return False            # one report per identifying key
         self.violations.append({'key': key, 'what': what, 'replay': replay})
         return True
 
